@@ -377,6 +377,27 @@ theorem fold_pdf_fin (sp : Comp X Ob → Bool) (g : Comp X Ob → X) (ps : List 
     rw [ih _ (fun q hq => hs q (by simp [hq])) (fun q hq => hw q (by simp [hq])) (fun q hq => hg q (by simp [hq]))]
     congr 1; ring
 
+/-- the fold of `pdf` / `pmf` over `X` with ARBITRARY supports: components that do not support `x` are skipped, whatever
+    their `f` is there (NaN, a panic in Rust, a positive number); only the supported ones need a finite density -/
+theorem fold_pdf_supp (sp : Comp X Ob → Bool) (g : Comp X Ob → X) (ps : List (X × Comp X Ob)) (a0 : ℝ)
+    (hw : ∀ p ∈ ps, ∃ a, p.1 = fin a) (hg : ∀ p ∈ ps, sp p.2 = true → ∃ r, g p.2 = fin r) :
+    ps.foldl (fun acc p => if sp p.2 then mulAdd p.1 (g p.2) acc else acc) (fin a0) =
+      fin (a0 + (ps.map (fun p => if sp p.2 then p.1.toReal * (g p.2).toReal else 0)).sum) := by
+  induction ps generalizing a0 with
+  | nil => simp
+  | cons p t ih =>
+    obtain ⟨a, ha⟩ := hw p (by simp)
+    by_cases hs : sp p.2 = true
+    · obtain ⟨r, hr⟩ := hg p (by simp) hs
+      simp only [List.foldl_cons, hs, if_true, mulAdd, ha, hr, X.fin_mul_fin, X.fin_add_fin,
+        List.map_cons, List.sum_cons, X.toReal_fin]
+      rw [ih _ (fun q hq => hw q (by simp [hq])) (fun q hq => hg q (by simp [hq]))]
+      congr 1; ring
+    · have hs' : sp p.2 = false := by simpa using hs
+      simp only [List.foldl_cons, hs', Bool.false_eq_true, if_false, List.map_cons, List.sum_cons]
+      rw [ih _ (fun q hq => hw q (by simp [hq])) (fun q hq => hg q (by simp [hq]))]
+      simp
+
 /-! ### `validate_weights` over `X` -/
 
 theorem real00 : (0.0 : ℝ) = 0 := by norm_num
